@@ -358,3 +358,64 @@ func (g *Gen) longTailInt(t tailSpec) *big.Int {
 }
 
 var longJs = []int{1, 2, 3, 4, 5, 9, 17, 18, 19, 20, 21, 36, 37, 38, 39, 40, 54, 57, 58, 76, 95, 100, 200}
+
+// ---- the pair grid: special coefficients x special coefficients x exponent gaps -------------------------------
+// Binary operations align their operands by the exponent gap and switch algorithm at particular gaps (one or two
+// 64-bit words, 19-digit steps, the 34/35-digit limit), and the 35-digit band of coefficients [10^34, 5*2^111) is
+// legal but outside what IEEE calls canonical.  Every pair (cx, cy, gap) of the lists below is enumerated.
+
+var gridCoefs []*big.Int
+var gridGapList = []int{0, 1, -1, 17, 18, 19, 20, -17, -18, -19, -20, 33, 34, 35, 36, -33, -34, -35, -36}
+
+func init() {
+	one := big.NewInt(1)
+	p113 := new(big.Int).Lsh(one, 113)
+	p64 := new(big.Int).Lsh(one, 64)
+	gridCoefs = []*big.Int{
+		big.NewInt(0), big.NewInt(1), big.NewInt(9), pow10(17), pow10(18), pow10(19), pow10(33),
+		new(big.Int).Sub(pow10(34), one), pow10(34), new(big.Int).Add(pow10(34), one),
+		new(big.Int).Sub(p113, one), p113, new(big.Int).Add(p113, one), new(big.Int).Set(cMax),
+		new(big.Int).Sub(p64, one), p64,
+	}
+}
+
+// the two members of a grid pair: coefficients cx, cy; x's exponent is gap above y's
+func (g *Gen) gridPair(cx, cy *big.Int, gap int) (x, y d128.Decimal) {
+	ex := g.r.Intn(41) - 20
+	switch g.r.Intn(6) {
+	case 0:
+		ex = eMin + g.r.Intn(45)
+	case 1:
+		ex = eMax - g.r.Intn(45)
+	}
+	ey := ex - gap
+	if ey < eMin {
+		ex, ey = ex+(eMin-ey), eMin
+	}
+	if ey > eMax {
+		ex, ey = ex-(ey-eMax), eMax
+	}
+	return mk(g.r.Intn(2) == 0, cx, ex), mk(g.r.Intn(2) == 0, cy, ey)
+}
+
+func (g *Gen) pairGrid(share float64, f func(x, y d128.Decimal)) {
+	nc, ng := len(gridCoefs), len(gridGapList)
+	g.gridRun(nc*nc*ng, share, func(i int) {
+		cx, cy, gap := gridCoefs[i%nc], gridCoefs[(i/nc)%nc], gridGapList[i/(nc*nc)]
+		x, y := g.gridPair(cx, cy, gap)
+		f(x, y)
+	})
+}
+
+// every special coefficient at eight consecutive exponents (all residues of the biased exponent modulo 8) in three
+// places of the range, both signs: predicates and comparisons with zero
+func (g *Gen) encodingGrid(share float64, f func(x d128.Decimal)) {
+	bases := []int{eMin, -4, eMax - 7}
+	n := len(gridCoefs) * len(bases) * 8
+	g.gridRun(n, share, func(i int) {
+		c := gridCoefs[i%len(gridCoefs)]
+		j := i / len(gridCoefs)
+		e := bases[j/8] + j%8
+		f(mk(g.r.Intn(2) == 0, c, e))
+	})
+}
